@@ -1679,9 +1679,11 @@ fn parallel_pass(prop: &str, seed: u64) -> Result<String, String> {
                 // where a call is cheap (width, indentation, in-place fill)
                 // (size thresholds — "only texts over 64 bytes", "only 8 or more fragments" — are
                 // a favourite way for shared state to dodge small inputs: every other workload is long)
+                // (and a long call overlapping short ones: in every third workload the
+                // sizes are mixed within the workload, one text short, the next long)
                 let n_words = if matches!(prop, "C10" | "C18" | "C19") {
                     8 + rng.below(17)
-                } else if seed % 2 == 1 {
+                } else if (seed % 3 == 0 && t % 2 == 1) || (seed % 3 != 0 && seed % 2 == 1) {
                     10 + rng.below(8)
                 } else {
                     3 + rng.below(4)
